@@ -129,6 +129,12 @@ func runC03Hanging(ctx *core.Ctx, h int) {
 }
 
 func runC03(ctx *core.Ctx, unit int) {
+	defer func() {
+		if c03RefSwitched > 0 {
+			ctx.Count("reference switched to the input's tokens: gofmt itself changed the statement structure", c03RefSwitched)
+			c03RefSwitched = 0
+		}
+	}()
 	if n := len(c03Templates()) * c03Shards; unit >= n {
 		runC03Hanging(ctx, unit-n)
 		return
@@ -324,14 +330,30 @@ func checkC03(src string) core.Outcome {
 		// inserted), so its token stream is not a usable reference; the input's own tokens are.
 		refToks = inToks
 	}
+	if refOK && !sameC03(refToks, outToks) && countTok(refToks, token.SEMICOLON) != countTok(inToks, token.SEMICOLON) &&
+		sameC03(c03Loose(inToks), c03Loose(outToks)) {
+		// gofmt itself changed the statement structure of this input: after stripping redundant parentheses
+		// it left a comment directly behind `return` (or the like) and broke the line there, where the
+		// scanner then inserts a semicolon. Its output parses but is a different program, so - as for
+		// output that does not parse - its token stream is no usable reference; the input's own is, compared
+		// without parentheses and with number literals by kind (both of which format.Node legitimately
+		// rewrites). The output is accepted if it has gofmt's tokens or, in this situation, the input's.
+		refToks = outToks
+		c03RefSwitched++
+	}
 	if !sameC03(refToks, outToks) {
 		// known: blank lines that are not empty (the "\r\n" of CRLF files, or whitespace-only lines) are
 		// not recognised (whitespace-only loss); when such a line separated two import groups the groups
 		// merge and gofmt sorts the merged group, so import specs change places. Same tokens as a multiset,
 		// and the same file with those lines emptied passes.
 		if core.IsKnown("C03-F4-nonempty-blank-line-between-import-groups") && sameTokMultiset(refToks, outToks) {
-			if norm := emptyBlankLines(src); norm != src && checkC03(norm).OK {
-				return core.Outcome{Known: "C03-F4-nonempty-blank-line-between-import-groups", Desc: desc("import groups separated by a non-empty blank line merged and re-sorted")}
+			if norm := emptyBlankLines(src); norm != src {
+				// the same file with those lines emptied passes, or shows only another listed finding
+				if o := checkC03(norm); o.OK {
+					return core.Outcome{Known: "C03-F4-nonempty-blank-line-between-import-groups", Desc: desc("import groups separated by a non-empty blank line merged and re-sorted")}
+				} else if o.Known != "" {
+					return core.Outcome{Known: "C03-F4-nonempty-blank-line-between-import-groups+" + o.Known, Desc: desc("import groups separated by a non-empty blank line merged and re-sorted; with those lines emptied: " + o.Known)}
+				}
 			}
 		}
 		i := firstTokDiff(refToks, outToks)
@@ -374,6 +396,34 @@ func checkC03(src string) core.Outcome {
 }
 
 func sameC03(a, b []c03Tok) bool { return firstTokDiff(a, b) < 0 }
+
+// c03RefSwitched counts inputs for which gofmt's own output is a different program (per worker).
+var c03RefSwitched int64
+
+func countTok(ts []c03Tok, k token.Token) int {
+	n := 0
+	for _, t := range ts {
+		if t.tok == k {
+			n++
+		}
+	}
+	return n
+}
+
+// c03Loose drops parentheses and compares number literals by kind only.
+func c03Loose(ts []c03Tok) []c03Tok {
+	var out []c03Tok
+	for _, t := range ts {
+		switch t.tok {
+		case token.LPAREN, token.RPAREN:
+			continue
+		case token.INT, token.FLOAT, token.IMAG:
+			t.lit = ""
+		}
+		out = append(out, t)
+	}
+	return out
+}
 
 func firstTokDiff(a, b []c03Tok) int {
 	for i := 0; i < len(a) || i < len(b); i++ {
